@@ -11,11 +11,12 @@ CONSTANTS
   Counts = {1, 2}
   Thresholds <- ThrZ0
   ZeroCounts = {0}
+  BZeroCounts = {0}
   Bounds = {1, 2, 3}
   Kinds = {"exp"}
   Types = {"float"}
   BTypes = {"float"}
-  MaxP = 2
+  MaxP = 3
   MaxN = 0
   BMaxP = 2
   BMaxN = 0
